@@ -213,6 +213,48 @@ func (g *Gen) rawAction() (Action, bool) {
 			fixLen(b)
 		}
 		return Action{Op: "raw", SMF: m.Idx, Raw: hex.EncodeToString(b), From: from}, true
+	case 2:
+		if g.chance(0.5) {
+			// depth is a size too: a valid Session Establishment / Modification whose first
+			// Create PDR (or, failing that, whose message body) also carries a chain of
+			// 8..64 grouped IEs nested in each other with an ordinary IE at the bottom. All
+			// lengths are consistent; go-pfcp decodes any grouped IE inside any other.
+			var in *MsgIntent
+			if x := g.liveOf(m, slot); x != nil && g.chance(0.4) {
+				in = g.modMsg(m, slot, x)
+			} else {
+				in = g.estMsg(m, slot)
+			}
+			b := s.build(m, in)
+			leaf := []byte{0, 93, 0, 5, 2, 10, 60, byte(g.intn(256)), byte(1 + g.intn(254))} // UE IP Address, V4
+			if g.chance(0.3) {
+				leaf = []byte{0, 56, 0, 2, 0, byte(1 + g.intn(4))} // PDR ID
+			}
+			gt := uint16(pick(g.rng, int(iePDI), int(iePDI), int(ieCreatePDR), int(ieForwardingParams), int(ieCreateFAR)))
+			for d, n := 0, pick(g.rng, 8, 20, 33, 48, 64); d < n; d++ {
+				w := make([]byte, 4, 4+len(leaf))
+				be.PutUint16(w, gt)
+				be.PutUint16(w[2:], uint16(len(leaf)))
+				leaf = append(w, leaf...)
+			}
+			var locs []ieLoc
+			locateIEs(b, hdrLen(b), len(b), 0, &locs)
+			done := false
+			for _, l := range locs {
+				if l.depth == 0 && l.typ == ieCreatePDR && g.chance(0.8) {
+					end := l.off + 4 + l.vlen
+					nb := append(append(append([]byte{}, b[:end]...), leaf...), b[end:]...)
+					be.PutUint16(nb[l.off+2:], uint16(l.vlen+len(leaf)))
+					b, done = nb, true
+					break
+				}
+			}
+			if !done {
+				b = append(b, leaf...)
+			}
+			fixLen(b)
+			return Action{Op: "raw", SMF: m.Idx, Raw: hex.EncodeToString(b), From: from}, true
+		}
 	}
 	var in *MsgIntent
 	switch g.intn(7) {
